@@ -40,6 +40,12 @@ Theorem C16_lookup_never_foreign : forall h i b st, run_evs cinit (h ++ [EGet i 
   exists v, In v (starts h) /\ id_of v = i /\ b = marshal v.
 Proof. exact get_never_foreign. Qed.
 
+(* exactly: a lookup returns the bytes of the most recently committed store under that identifier (not-found iff none),
+   whatever kills and reopens lie in between *)
+Theorem C16_lookup_is_last_committed : forall h i res st, run_evs cinit (h ++ [EGet i res]) = Some st -> Forall wf (starts h) -> idwf i ->
+  res = match last_committed h i with Some v => Found (marshal v) | None => NotFound end.
+Proof. exact lookup_is_last_committed. Qed.
+
 (* a kill can come at any moment, and the store always reopens afterwards with exactly its durable contents *)
 Theorem C16_kill_any_time : forall st, up st = true -> exists st', exec st ECrash = Some st'.
 Proof. exact crash_always_possible. Qed.
@@ -88,6 +94,7 @@ Print Assumptions C16_success_implies_committed.
 Print Assumptions C16_acked_survives.
 Print Assumptions C16_acked_survives_intact.
 Print Assumptions C16_lookup_never_foreign.
+Print Assumptions C16_lookup_is_last_committed.
 Print Assumptions C16_kill_any_time.
 Print Assumptions C16_reopens_after_kill.
 Print Assumptions C16_error_means_aborted.
